@@ -258,6 +258,38 @@ func runC17Setup(c *Ctx) {
 		if err1 != nil || err2 != nil {
 			continue
 		}
+		// a configuration need not come out of the loader: an embedder may build the struct itself, so fields the loader would
+		// have defaulted can be empty
+		blank := func(cfg *admissionapi.PodSecurityConfiguration) []string {
+			names := []string{}
+			if !r.Chance(1, 5) {
+				return names
+			}
+			for k := 1 + r.Intn(2); k > 0; k-- {
+				switch n := pick(r, []string{"enforce", "enforceVersion", "audit", "auditVersion", "warn", "warnVersion"}); n {
+				case "enforce":
+					cfg.Defaults.Enforce = ""
+					names = append(names, n)
+				case "enforceVersion":
+					cfg.Defaults.EnforceVersion = ""
+					names = append(names, n)
+				case "audit":
+					cfg.Defaults.Audit = ""
+					names = append(names, n)
+				case "auditVersion":
+					cfg.Defaults.AuditVersion = ""
+					names = append(names, n)
+				case "warn":
+					cfg.Defaults.Warn = ""
+					names = append(names, n)
+				default:
+					cfg.Defaults.WarnVersion = ""
+					names = append(names, n)
+				}
+			}
+			return names
+		}
+		blank1, blank2 := blank(load1), blank(load2)
 		flags := map[string]bool{}
 		for _, k := range []string{"metrics", "extractor", "evaluator", "getter", "lister"} {
 			flags[k] = !r.Chance(1, 7)
@@ -295,13 +327,13 @@ func runC17Setup(c *Ctx) {
 			got["validate"] = classifySetupErr(adm.ValidateConfiguration())
 		}
 		c.Eval(1)
-		op := J{"op": "controller", "doc": leanDoc(d1), "exchange": leanDoc(d2), "noCfg": noCfg, "complete": complete, "doExchange": exchange}
+		op := J{"op": "controller", "doc": leanDoc(d1), "exchange": leanDoc(d2), "noCfg": noCfg, "complete": complete, "doExchange": exchange, "blank": blank1, "blankExchange": blank2}
 		for k, v := range flags {
 			op[k] = v
 		}
 		cops = append(cops, op)
 		cgot = append(cgot, got)
-		cin = append(cin, J{"configuration": renderJSON(d1), "exchangedFor": renderJSON(d2), "noConfiguration": noCfg, "completeCalled": complete, "exchangedAfterComplete": exchange, "dependenciesSet": flags})
+		cin = append(cin, J{"configuration": renderJSON(d1), "exchangedFor": renderJSON(d2), "noConfiguration": noCfg, "completeCalled": complete, "exchangedAfterComplete": exchange, "dependenciesSet": flags, "fieldsEmptiedAfterLoading": blank1, "fieldsEmptiedInExchanged": blank2})
 		c.Tag(fmt.Sprintf("controller.validate=%v", got["validate"]))
 		// the property's own words: a configuration that does not validate is never accepted by a controller
 		if got["validate"] == "ok" && !noCfg {
